@@ -264,6 +264,23 @@ func (eng *Engine) indexCallSigs() {
 	eng.callSigs["select.case"] = &callSig{names: []string{"index", "ch"}, types: []types.Type{types.Typ[types.Int], types.Typ[types.Int]}}
 }
 
+// resultTypes: result types of the calls logged under key; when no call site is left in the code the
+// signature of the named function itself is used.
+func (eng *Engine) resultTypes(key string) []types.Type {
+	if rt := eng.callRets[key]; rt != nil {
+		return rt
+	}
+	if fn := eng.funcByKey(key); fn != nil {
+		var rts []types.Type
+		rs := fn.Signature.Results()
+		for i := 0; i < rs.Len(); i++ {
+			rts = append(rts, rs.At(i).Type())
+		}
+		return rts
+	}
+	return nil
+}
+
 func (eng *Engine) inRepo(fn *ssa.Function) bool {
 	f := fn
 	for f.Parent() != nil {
